@@ -132,15 +132,18 @@ class RowsEval:
 
 class WideEval:
     """A class evaluator whose rows carry a long pseudo-random string, to get records (and logs) far beyond 64 KiB."""
-    def __init__(self, width, rows=1):
-        self._width, self._rows = width, rows
+    def __init__(self, width, rows=1, const=False):
+        self._width, self._rows, self._const = width, rows, const      # const: one repeated character (inflates > 1000:1 under gzip)
     @property
     def params(self):
-        return {"width": self._width, "rows": self._rows}
+        return {"width": self._width, "rows": self._rows, "const": self._const}
     def evaluate(self, environment, learner):
         import hashlib
         n = sum(1 for _ in environment.read())
         for i in range(self._rows):
+            if self._const:
+                yield {"reward": (i + 1) / (self._rows + 1), "blob": "z" * self._width}
+                continue
             h, parts, size = ("%d/%d/%d" % (self._width, i, n)).encode(), [], 0
             while size < self._width:
                 h = hashlib.sha256(h).hexdigest().encode()
@@ -234,7 +237,7 @@ def make_val(d):
     if k == "seq": return SequentialCB(record=list(d.get("record", ["reward"])), learn=d.get("learn", "on"), eval=d.get("eval", "on"), seed=d.get("seed"))
     if k == "func": return summary_eval
     if k == "rows": return RowsEval(d.get("every", 2))
-    if k == "wide": return WideEval(d["width"], d.get("rows", 1))
+    if k == "wide": return WideEval(d["width"], d.get("rows", 1), d.get("const", False))
     raise ValueError(k)
 
 def triple_indices(desc):
